@@ -97,6 +97,8 @@ class SysEngine(MempoolEngine):
             async def notify(h, touched):
                 eng.nmon.on_notify(h, touched)
                 eng.bump('notifications_issued')
+                if eng.srv.db.state.height < h:
+                    eng.bump('notifications_issued_while_index_below_their_height')
                 eng.clock += 1
                 eng.notif_log.append((eng.clock, set(touched)))
                 eng.notify_in_flight += 1
@@ -640,7 +642,19 @@ def gen_lag_script(rng, nclients, nscripts):
     for _ in range(rng.randrange(1, 4)):
         script.append(('w', 'add'))
         script.append(('sleep', rng.choice((0, 2, 5.1, 6))))
-        script.append(('w', rng.choice(('mine_none', 'mine_none', 'mine_some', 'mine2'))))
+        r = rng.random()
+        if r < 0.6:
+            script.append(('w', rng.choice(('mine_none', 'mine_none', 'mine_some', 'mine2'))))
+        elif r < 0.8:
+            # a forced reorg overtaking the slow refresh (which must have started before the blocks are undone)
+            script.append(('sleep', rng.choice((5.5, 6, 7))))
+            script.append(('rpc_reorg', rng.randrange(1, 3)))
+        else:
+            script.append(('reorg_same', rng.randrange(1, 3)))
+            script.append(('sleep', rng.choice((0, 1, 6))))
+            script.append(('w', 'add'))
+            script.append(('sleep', rng.choice((0, 2, 5.1))))
+            script.append(('rpc_reorg', 2))
         script.append(('sleep', rng.choice((20, 40))))
     return script
 
